@@ -36,3 +36,4 @@ UNITS = [
     ("C17.cmdprint.each_item_is_written_once_with_its_value", O.unit_cmdprint),
     ("C17.exec.every_statement_keyword_dispatches_to_its_own_command", O.unit_exec_dispatch),
 ]
+from props.c17_ext2 import UNITS as _U2; UNITS = UNITS + _U2
